@@ -29,9 +29,19 @@ def _worker(task):
     t0 = time.time()
     try:
         res = fam.func(fam.shards[si])
-    except Exception:  # pylint: disable=broad-exception-caught
-        return (fi, si, None, traceback.format_exc(), time.time() - t0)
+    except Exception as exc:  # pylint: disable=broad-exception-caught
+        return (fi, si, None, (impl_raised(exc), traceback.format_exc()), time.time() - t0)
     return (fi, si, res, None, time.time() - t0)
+
+
+def impl_raised(exc):
+    """True iff the exception was raised by code of the implementation under test (innermost frame under $VERIF_REPO/src)
+    and not anticipated by the driver: on the unchanged tree this never happens (it would be a harness error there);
+    on a changed tree it is a behaviour change of the code under test, reported as a violation, not as a harness error."""
+    from .common import REPO_DIR  # pylint: disable=import-outside-toplevel
+    src = os.path.realpath(os.path.join(REPO_DIR, 'src')) + os.sep
+    tb = traceback.extract_tb(exc.__traceback__)
+    return bool(tb) and os.path.realpath(tb[-1].filename).startswith(src)
 
 
 def _reexec_env():
@@ -87,7 +97,14 @@ def do_replay_shard(mod, pid, rep):
     fams = mod.families(rep['tier'])
     name, si = rep['shard']
     fam = next(f for f in fams if f.name == name)
-    res = fam.func(fam.shards[si])
+    try:
+        res = fam.func(fam.shards[si])
+    except Exception as exc:  # pylint: disable=broad-exception-caught
+        if impl_raised(exc):
+            print(json.dumps({'property': pid, 'family': rep['family'], 'shard': rep['shard'], 'escaped': traceback.format_exc().strip().splitlines()[-1]}, indent=1))
+            print(f'REPLAY property={pid} still-fails=true (shard replay: exception escaped the implementation)')
+            return 1
+        raise
     want = case_id([rep['family'], rep['case']])
     hit = [v for v in res['violations'] + res['known_violations'] if case_id([v['family'], v['case']]) == want]
     print(json.dumps({'property': pid, 'family': rep['family'], 'shard': rep['shard'], 'case': rep['case'],
@@ -115,6 +132,7 @@ def do_check(mod, pid, args):
     random.Random(seed).shuffle(order)
     results = {}
     errors = []
+    impl_errors = []
     timed_out = False
     ctx = multiprocessing.get_context('fork')
     jobs = max(1, min(args.jobs, len(order) or 1))
@@ -132,8 +150,10 @@ def do_check(mod, pid, args):
                 pool.terminate()
                 break
             shard_times[(fi, si)] = dt
-            if err is not None:
-                errors.append((fams[fi].name, si, err))
+            if err is not None and err[0]:
+                impl_errors.append((fi, si, err[1]))
+            elif err is not None:
+                errors.append((fams[fi].name, si, err[1]))
             else:
                 results[(fi, si)] = res
     if errors:
@@ -145,6 +165,12 @@ def do_check(mod, pid, args):
     known = findings.load()
     fam_reports = []
     all_viol = []
+    for fi, si, text in impl_errors:
+        tail = [ln for ln in text.strip().splitlines() if ln.strip()][-6:]
+        all_viol.append({'family': fams[fi].name, 'case': {'shard_exception': True, 'shard_index': si, 'error': tail[-1]},
+                         'expected': 'the shard completes: no exception escapes the code under test where the unchanged tree raises none',
+                         'actual': tail, 'first_difference': 'an exception raised inside the implementation escaped to the harness: ' + tail[-1],
+                         'known': None, 'shard': [fams[fi].name, si]})
     total = {k: 0 for k in ('cases', 'evals', 'states', 'transitions', 'traces', 'nontrivial', 'unspecified', 'pruned', 'nviol', 'nknown')}
     all_known = []
     samples = []
@@ -260,7 +286,7 @@ def write_replay(pid, tier, v):
     path = os.path.join(VERIF_DIR, 'replays', f'{pid}-{cid}.json')
     doc = {'property': pid, 'tier': tier, 'family': v['family'], 'case': v['case'], 'expected': v['expected'],
            'actual': v['actual'], 'first_difference': v['first_difference'], 'known_finding': v.get('known'),
-           'shard': v.get('shard'), 'history_dependent': False}
+           'shard': v.get('shard'), 'history_dependent': bool(isinstance(v['case'], dict) and v['case'].get('shard_exception'))}
     with open(path, 'w', encoding='utf-8') as fh:
         json.dump(doc, fh, indent=1, sort_keys=True, default=repr)
         fh.write('\n')
